@@ -288,6 +288,8 @@ pub fn run(ctx: &Ctx) {
     extremes(ctx, &present);
     let suite = Suite::for_tier(ctx.tier);
     drive(ctx, &suite, &|f| check_ranges(ctx, &present, f));
+    // thorough: coverage-guided campaign (libFuzzer), range oracle inside the target
+    crate::fuzzrun::decode_campaign(ctx, "c08", &|f| check_ranges(ctx, &present, f));
     ctx.set_extra("accepted_frames_with_checked_quantity", json!(present.load(Ordering::Relaxed)));
     ctx.sample(json!({"kind": "bytes", "frame": "8d485020994409940838175b284f", "note": "velocity: track 182.9, vertical_rate -832"}));
     ctx.sample(json!({"kind": "bytes", "frame": "a8001ebcfffb23286004a73f6a5b", "note": "BDS 5,0 + 6,0"}));
